@@ -7,7 +7,7 @@ TRUSTED_BASE_COMMON = [
     "dependencies of litefs used but not modelled: github.com/superfly/ltx, bazil.org/fuse, net/http, Go runtime, Linux file system",
 ]
 
-HOOK_COMMITS = ["061d000"]
+HOOK_COMMITS = ["061d000", "665010a", "bf0afb2", "cbb69bc", "4e51f8d"]
 NOT_APPLICABLE = {}
 
 PROPS = {
@@ -174,5 +174,16 @@ PROPS = {
         "explanation": "Decision theorems for all inputs; the cross product ties them to the server.",
         "assumes": ["positions on a primary never decrease", "a local commit completes before the triggering file operation returns (C02/C03)"],
         "trusted_base": ["Model/Proxy.v hand-written; tie = cases_c19_*.v"],
+    },
+    "C20": {
+        "gen": [], "props_file": "Props/C20.v", "coq_targets": ["Props/C20.v"],
+        "level_text": "Proof (partial; one refuted class = known finding): over the abstract request (endpoint, method, name / id / nodeID class, Litefs-Id = self, protocol, body usable, halt lock held) x role, [respond] is total with one of eight statuses; every invalid request (malformed, not allowed for the role, or referring to a missing database / lock / node - defined from the property, not from the handlers) has effect ENone, EXCEPT POST /import of an unusable body for a new name on the primary (C20_refuted, exactly characterised by C20_refuted_class); invalid requests are answered >= 400 except the no-op release of a lock that is not held; an effect needs authority (apply: primary + holder's lock id; grant: primary + free lock; release: the lock's id) (Props/C20.v). "
+                      "Tie: the real h2c server of a primary, a connected replica and a node with no primary is sent the cross product over HTTP/1.1 and h2c with empty / garbage / truncated / well-formed / oversized bodies; per request the harness requires an HTTP response, a live GET /info afterwards, and compares status, changed-or-not (databases, positions, LTX listings, lock states, halt locks, database file hash, files inside and outside the data directory) and the invalid-classification with the model; at the end the primary must commit, the replica follow, and every node restart on its directory.",
+        "level_note": "Trusted: Coq kernel, harness (its request-to-class mapping). Modelled not verified: http/server.go text; that the Go runtime delivers the response and no handler panics or blocks is observed per request, not proved. Not exercised: a valid handoff / promote (moves the lease: C08), /import and /export while a halt lock is held (they wait for it: C10/C13), pprof/metrics/debug endpoints.",
+        "technique": "Coq proof by exhaustive case analysis over the abstract request + vm_compute correspondence + live-server oracle (response, liveness, before/after state diff)",
+        "rule": "3 roles x (14 paths x 6 methods x 2 protocols + per-endpoint cross product of the parameters it reads, 22 percent sampled in quick, all in thorough); distinct = (path, method, class, role); non-trivial = a response was required and the node state was diffed before/after",
+        "explanation": "The theorem covers every request class at once; the harness shows the server realises the class table and survives the concrete bytes.",
+        "assumes": ["the rig's replica is not a candidate; the other nodes are"],
+        "trusted_base": ["Model/Api.v hand-written; tie = cases_c20_*.v"],
     },
 }
